@@ -521,7 +521,7 @@ def _clip(U, lo=None, hi=None, no_nan=False):
     nlo = U.lo if lo is None else tmax(U.lo, lo)
     nhi = U.hi if hi is None else tmin(U.hi, hi)
     bad = tless(nhi, nlo)
-    return IV(np.where(bad, U.lo, nlo), np.where(bad, U.hi, nhi), U.nan & (not no_nan), U.emp | bad)
+    return IV(np.where(bad, U.lo, nlo), np.where(bad, U.hi, nhi), U.nan & (not no_nan), U.emp | bad, U.rel, U.abe)
 
 
 def _guards(c, pol, val, dom):
